@@ -8,8 +8,8 @@
 #include <unistd.h>
 
 #define MAXLINES 96
-static const char *EXTRA_SCEN[] = { "create", "to_png", "from_png", "from_jcf", "reinit" };
-#define NEXTRA 5
+static const char *EXTRA_SCEN[] = { "create", "to_png", "from_png", "from_jcf", "reinit", "header_overflow" };
+#define NEXTRA 6
 
 typedef struct {
   const char *text;
@@ -87,6 +87,9 @@ static void gen_scenario(uint64_t rseed, uint64_t idx, const char *tier, sbuf_t 
     sb_printf(o, "mat 0 %d %d rand 128 %llu\n", m, n, (unsigned long long)(rng_u64(&rg) >> 1));
     sb_printf(o, "mat 1 %d %d zero 0 0\n", gen_dim(&rg, 8), 0);
     sb_printf(o, "perm 0 %d rand %llu\n", gen_dim(&rg, g.maxdim), (unsigned long long)(rng_u64(&rg) >> 1));
+  } else if (!strcmp(op, "header_overflow")) { /* more than 1024 simultaneously live headers: the pool's 16 blocks are full, headers come from plain allocations */
+    sb_printf(o, "mat 0 %d %d rand 128 %llu\n", 1 + (int)rng_below(&rg, 6), 1 + (int)rng_below(&rg, 130), (unsigned long long)(rng_u64(&rg) >> 1));
+    sb_printf(o, "op window_burst 0 %d\n", 1026 + (int)rng_below(&rg, 8));
   } else if (gen_case(&rg, op, &g, o, 0, 0) < 0) {
     sb_printf(o, "# unknown scenario\n");
   }
